@@ -18,7 +18,7 @@ import numpy as np
 from hypothesis import strategies as st
 
 from vf import advcommon as AC
-from vf.runner import PropertyViolation, Sub
+from vf.runner import PropertyViolation, Skip, Sub
 
 PROPERTY = "C17"
 LEVEL = "exploration"
@@ -217,7 +217,13 @@ def check(case):
         cb_arg = cbs
 
     est, rec = _build(case, cb_arg)
-    ret = est.fit(X, AC.wrap(yv, kind), sensitive_features=AC.wrap(av, kind))
+    try:
+        ret = est.fit(X, AC.wrap(yv, kind), sensitive_features=AC.wrap(av, kind))
+    except RuntimeError as e:
+        if "between 0 and 1" in str(e):
+            # SGD blew up (NaN weights -> NaN sigmoid output rejected by torch's BCELoss): not a schedule matter
+            raise Skip("training diverged: non-finite sigmoid output") from e
+        raise
     _need(ret is est, "fit did not return the estimator")
 
     # ---- schedule ---------------------------------------------------------------------------------------------
@@ -411,7 +417,7 @@ def _cases(draw):
         kinds = ["str", "callable"] + (["instance"] if spec["kind"] == "module" else [])
         return draw(st.sampled_from(kinds))
 
-    lrs = st.sampled_from([0.01, 0.05, 0.1, 0.25])
+    lrs = st.sampled_from([0.001, 0.005, 0.01, 0.02, 0.05])
     return {
         "n": n, "n_features": nf, "X": X, "Xtest": Xtest, "y": y, "a": a,
         "batch_size": bs, "epochs": epochs, "max_iter": max_iter,
